@@ -203,3 +203,69 @@ func TestRegressDecoderShortReads(t *testing.T) {
 		}
 	}
 }
+
+// TestRegressSecondInitialMarker replays finding C15-second-initial-marker without the property-testing library: the
+// chain is in its first height, the node has synced records of it in the WAL, the head is rotated and the node stops
+// before anything is written to the new head. After the restart the reader SearchForEndHeight(0) returns - what
+// catchupReplay(InitialHeight) replays from - must yield those records. Start used to write a second #ENDHEIGHT 0 into
+// the empty head and the newest-first search returned a reader behind it.
+func TestRegressSecondInitialMarker(t *testing.T) {
+	dir, err := os.MkdirTemp(scratch, "c15-regress-")
+	if err != nil {
+		t.Fatalf("VERIF-INFRA: %v", err)
+	}
+	defer os.RemoveAll(dir)
+	path := filepath.Join(dir, "wal")
+	open := func() *consensus.BaseWAL {
+		w, err := consensus.NewWAL(path)
+		if err != nil {
+			t.Fatalf("VERIF-INFRA: %v", err)
+		}
+		if err := w.Start(); err != nil {
+			t.Fatalf("start: %v", err)
+		}
+		return w
+	}
+	stop := func(w *consensus.BaseWAL) {
+		if err := w.Stop(); err != nil {
+			t.Fatalf("stop: %v", err)
+		}
+		w.Wait()
+		_ = w.Group().Head.Close()
+	}
+	ts := time.Unix(1_700_000_000, 0).UTC()
+	written := []consensus.WALMessage{mkProposal(1, 1, 0, -1, ts, ""), mkVote(2, 1, 0, 1, true, ts, "")}
+	w := open()
+	for _, m := range written {
+		if err := w.WriteSync(m); err != nil {
+			t.Fatal(err)
+		}
+	}
+	w.Group().RotateFile() // what the group's ticker does when the head has reached its size limit
+	stop(w)
+
+	w = open()
+	defer stop(w)
+	rd, found, err := w.SearchForEndHeight(0, &consensus.WALSearchOptions{IgnoreDataCorruptionErrors: true})
+	if err != nil || !found {
+		t.Fatalf("SearchForEndHeight(0): found=%v err=%v", found, err)
+	}
+	defer rd.Close()
+	out, term := drain(rd)
+	var got []consensus.WALMessage
+	for _, m := range out {
+		if _, marker := m.Msg.(consensus.EndHeightMessage); !marker { // replay skips markers
+			got = append(got, m.Msg)
+		}
+	}
+	lib.Case("TestRegressSecondInitialMarker", lib.FP(1), true)
+	if !reflect.DeepEqual(got, written) || term != io.EOF {
+		if lib.IsKnown(idSecondMarker) {
+			lib.ObservedKnown(idSecondMarker)
+			lib.ExcludedByKnown(idSecondMarker)
+			return
+		}
+		t.Fatalf("[%s] the first height's proposal and vote were written with WriteSync, the head was rotated and the node restarted: "+
+			"the reader behind #ENDHEIGHT 0 returns %d of the 2 records (ends with %v)", idSecondMarker, len(got), term)
+	}
+}
